@@ -365,5 +365,45 @@ func reentrant(r *lib.Report, tier string) (int64, int64, []interface{}) {
 			states++
 		}
 	}
+	// what a publisher carries is opaque to it: the payload table (nil, typed nil pointers, zero values, an
+	// error value, equal-but-distinct pointers) published on an origin of interface{} / *int and received
+	// directly, through Map(identity) and through a Map that turns every value into nil
+	{
+		pay := lib.Payloads()
+		trans++
+		states++
+		var direct, mapped, nils []string
+		origin := fpgo.PublisherNewGenerics[interface{}]()
+		origin.Subscribe(fpgo.Subscription[interface{}]{OnNext: func(v interface{}) { direct = append(direct, lib.Show(v)) }})
+		origin.Map(func(v interface{}) interface{} { return v }).Subscribe(fpgo.Subscription[interface{}]{OnNext: func(v interface{}) { mapped = append(mapped, lib.Show(v)) }})
+		origin.Map(func(v interface{}) interface{} { return nil }).Subscribe(fpgo.Subscription[interface{}]{OnNext: func(v interface{}) { nils = append(nils, lib.Show(v)) }})
+		var ptrs []string
+		po := fpgo.PublisherNewGenerics[*int]()
+		po.Map(func(v *int) *int { return v }).Subscribe(fpgo.Subscription[*int]{OnNext: func(v *int) { ptrs = append(ptrs, lib.Show(v)) }})
+		var want, wantNil, wantPtr []string
+		msg := lib.Catch(func() {
+			for _, v := range pay {
+				origin.Publish(v)
+				want = append(want, lib.Show(v))
+				wantNil = append(wantNil, "untyped-nil")
+			}
+			for _, v := range []*int{lib.P1, nil, lib.P2, nil} {
+				po.Publish(v)
+				wantPtr = append(wantPtr, lib.Show(v))
+			}
+		})
+		switch {
+		case msg != "":
+			r.Violation("C10|payload|panic", "publishing the payload table: "+msg, nil)
+		case fmt.Sprint(direct) != fmt.Sprint(want):
+			r.Violation("C10|payload|direct", fmt.Sprintf("a subscriber of Publisher[interface{}] received %v, published %v", direct, want), nil)
+		case fmt.Sprint(mapped) != fmt.Sprint(want):
+			r.Violation("C10|payload|map", fmt.Sprintf("a subscriber of Map(identity) received %v, the origin published %v", mapped, want), nil)
+		case fmt.Sprint(nils) != fmt.Sprint(wantNil):
+			r.Violation("C10|payload|map", fmt.Sprintf("a subscriber of Map(v -> nil) received %v for %d published values", nils, len(pay)), nil)
+		case fmt.Sprint(ptrs) != fmt.Sprint(wantPtr):
+			r.Violation("C10|payload|map", fmt.Sprintf("a subscriber of Publisher[*int].Map(identity) received %v, published %v", ptrs, wantPtr), nil)
+		}
+	}
 	return states, trans, samples
 }
